@@ -101,6 +101,9 @@ Definition mc_applies (key : Z) (c : mcase) : bool := (mc_lo c <=? key) && (key 
 
 Definition pname (p : param) : name := match p with P n _ _ _ => n end.
 Definition pkind_of (p : param) : pkind := match p with P _ _ _ k => k end.
+(* the names of the LENGTH-KEY parameters of a parameter list *)
+Definition own_keys (ps : list param) : list name :=
+  flat_map (fun p => match pkind_of p with KLenKey _ => [pname p] | _ => [] end) ps.
 
 (* ---------- encode state ---------- *)
 Record estate := mkE {
@@ -117,6 +120,11 @@ Definition set_eop (s : estate) (b : bool) : estate :=
   mkE (e_msg s) (e_used s) (e_origin s) (e_cur s) (e_bit s) b (e_lkeys s) (e_keypos s) (e_req s) (e_warn s).
 Definition set_lkeys (s : estate) (l : list (name * Z)) : estate :=
   mkE (e_msg s) (e_used s) (e_origin s) (e_cur s) (e_bit s) (e_eop s) l (e_keypos s) (e_req s) (e_warn s).
+Definition drop_keys (names : list name) (s : estate) : estate :=
+  match names with
+  | [] => s
+  | _ => set_lkeys s (filter (fun kv => negb (existsb (bytes_eqb (fst kv)) names)) (e_lkeys s))
+  end.
 Definition set_keypos (s : estate) (l : list (name * Z)) : estate :=
   mkE (e_msg s) (e_used s) (e_origin s) (e_cur s) (e_bit s) (e_eop s) (e_lkeys s) l (e_req s) (e_warn s).
 
@@ -739,6 +747,9 @@ with enc_composite (fuel : nat) (ps : list param) (v : value) (s : estate) {stru
       do _ <- guard (e_bit s =? 0) ERej;
       let orig_origin := e_origin s in
       let orig_eop := e_eop s in
+      (* since the fix commit "items of a field shared the values of their length- and table keys": the object forgets
+         what was determined for keys named like its own *)
+      let s := drop_keys (own_keys ps) s in
       let s := set_eop (set_origin s (e_cur s)) false in
       (* unknown parameters *)
       do _ <- guard (forallb (fun k => existsb (fun p => bytes_eqb (fst k) (pname p)) ps) kv) ERej;
